@@ -385,6 +385,13 @@ func runC15(c c15Case, o *vfutil.Obs) *vfutil.Failure {
 			}
 			adminSub = sub
 		}
+		// flush fire-and-forget publishes of earlier (allowed) calls: an authorised
+		// AckPolicy-ALL sentinel on the same connection orders them before it
+		for _, r := range []string{"foo", "bar"} {
+			if err := w.sentinelPublish(r); err != nil {
+				return vfutil.Failf("harness/sentinel", "%s: %v", desc, err)
+			}
+		}
 		before := w.digest()
 		ctx, cancel := ctxFor(cl, 5*time.Second)
 		switch call.Kind {
@@ -402,10 +409,10 @@ func runC15(c c15Case, o *vfutil.Obs) *vfutil.Failure {
 			_, callErr = a.SetStreamReadonly(ctx, &client.SetStreamReadonlyRequest{Name: res, Readonly: true})
 		case "publish", "publish-paused":
 			allowed = c15Allowed(policy, cl, res, "Publish")
-			_, callErr = a.Publish(ctx, &client.PublishRequest{Stream: res, Value: []byte(val), AckPolicy: client.AckPolicy_LEADER})
+			_, callErr = a.Publish(ctx, &client.PublishRequest{Stream: res, Value: []byte(val), AckPolicy: []client.AckPolicy{client.AckPolicy_LEADER, client.AckPolicy_NONE, client.AckPolicy_ALL}[call.Arg%3]})
 		case "publish-subject":
 			allowed = c15Allowed(policy, cl, res, "PublishToSubject")
-			_, callErr = a.PublishToSubject(ctx, &client.PublishToSubjectRequest{Subject: res, Value: []byte(val), AckPolicy: client.AckPolicy_LEADER})
+			_, callErr = a.PublishToSubject(ctx, &client.PublishToSubjectRequest{Subject: res, Value: []byte(val), AckPolicy: []client.AckPolicy{client.AckPolicy_LEADER, client.AckPolicy_NONE, client.AckPolicy_ALL}[call.Arg%3]})
 		case "publish-async":
 			sctx, scancel := ctxFor(cl, 0)
 			asyncStream = &fakePublishAsyncStream{fakeServerStream: fakeServerStream{ctx: sctx}, in: make(chan *client.PublishRequest, 8)}
@@ -413,7 +420,9 @@ func runC15(c c15Case, o *vfutil.Obs) *vfutil.Failure {
 			for j, br := range call.Batch {
 				r := []string{"foo", "bar"}[br%2]
 				corr := fmt.Sprintf("%s-%d", val, j)
-				asyncStream.in <- &client.PublishRequest{Stream: r, Value: []byte(corr), AckPolicy: client.AckPolicy_LEADER, CorrelationId: corr}
+				// ack policies vary: fire-and-forget messages get no response at all
+				pol := []client.AckPolicy{client.AckPolicy_LEADER, client.AckPolicy_NONE, client.AckPolicy_ALL}[(call.Arg+j)%3]
+				asyncStream.in <- &client.PublishRequest{Stream: r, Value: []byte(corr), AckPolicy: pol, CorrelationId: corr}
 				if !c15Allowed(policy, cl, r, "Publish") {
 					allowed = false
 					asyncDenied = append(asyncDenied, corr+"@"+r)
